@@ -49,12 +49,18 @@ type Env struct {
 	clis   []*cli
 	// native mode only: handler goroutines in flight (the harness must itself be race-free there)
 	hStarted, hDone int32
+	nmu             sync.Mutex
 }
 
 // finalize reads the call-option targets once everything is quiescent (reading
 // them while another client task is still inside the call would be a race of
 // the harness's own making).
 func (e *Env) finalize() {
+	if raceBuild && e.native {
+		return
+	}
+	e.nlock()
+	defer e.nunlock()
 	for i, c := range e.clis {
 		if c != nil && i < len(e.rec.RPCs) {
 			e.rec.RPCs[i].OptHeader = mdStr(c.hdr)
@@ -313,7 +319,9 @@ func (e *Env) nestedInvoke(j int, ctx context.Context, tn string) {
 	rr.SendAttempt = append(rr.SendAttempt, tag(j, "c", 0))
 	e.where("handler:nested-Invoke")
 	c := &cli{}
+	e.nlock()
 	e.clis[j] = c
+	e.nunlock()
 	err := e.ch.Invoke(ctx, e.method(j), newMsg(j, "c", 0), &resp, grpc.Header(&c.hdr), grpc.Trailer(&c.trl))
 	e.where("")
 	rr.RecvRes = append(rr.RecvRes, es(err))
@@ -335,6 +343,21 @@ type cli struct {
 
 func (e *Env) method(i int) string { return "/t.S/M" + strconv.Itoa(i) }
 
+// nlock / nunlock protect the observation record in native (free-running) mode,
+// where several client tasks and handler goroutines really run in parallel and
+// the harness itself must be free of data races; under the controlled scheduler
+// only one task runs at a time and they do nothing.
+func (e *Env) nlock() {
+	if e.native {
+		e.nmu.Lock()
+	}
+}
+func (e *Env) nunlock() {
+	if e.native {
+		e.nmu.Unlock()
+	}
+}
+
 func (e *Env) clientOps(i int, tn string, c *cli, ops []string) {
 	rr := e.rec.RPCs[i]
 	rpc := &e.sc.RPCs[i]
@@ -349,6 +372,7 @@ func (e *Env) clientOps(i int, tn string, c *cli, ops []string) {
 			err := e.ch.Invoke(e.ctx, e.method(i), req, &resp, grpc.Header(&c.hdr), grpc.Trailer(&c.trl))
 			e.where("")
 			own.returned()
+			e.nlock()
 			rr.RecvRes = append(rr.RecvRes, es(err))
 			if err == nil {
 				rr.CliRecv = append(rr.CliRecv, string(resp.Payload))
@@ -358,26 +382,31 @@ func (e *Env) clientOps(i int, tn string, c *cli, ops []string) {
 			if rr.FinalErr == "" {
 				rr.FinalErr = es(err)
 			}
+			e.nunlock()
 			e.rec.ev(tn, op, es(err))
 		case op[0] == 'S' || op[0] == 'E':
 			seq, _ := strconv.Atoi(op[1:])
 			req := newMsg(i, "c", seq)
+			e.nlock()
 			if op[0] == 'E' {
 				req = &Msg{} // the empty message: zero bytes on the wire
 				rr.SendAttempt = append(rr.SendAttempt, "")
 			} else {
 				rr.SendAttempt = append(rr.SendAttempt, tag(i, "c", seq))
 			}
+			e.nunlock()
 			own := e.own(req, tag(i, "c", seq), "SendMsg")
 			e.where("client:SendMsg")
 			err := c.stream.SendMsg(req)
 			e.where("")
 			own.returned()
+			e.nlock()
 			rr.SendRes = append(rr.SendRes, es(err))
 			if err == nil {
 				rr.CliSendDone++
 				e.monitorBackpressure(i, "cli")
 			}
+			e.nunlock()
 			e.rec.ev(tn, op, es(err))
 		case op == "C":
 			e.where("client:CloseSend")
@@ -385,18 +414,24 @@ func (e *Env) clientOps(i int, tn string, c *cli, ops []string) {
 			e.where("")
 			e.rec.ev(tn, op, es(err))
 		case op == "H":
+			e.nlock()
 			rr.CliRecvStarted++ // Header() may take a frame off the stream as well
+			e.nunlock()
 			e.where("client:Header")
 			md, err := c.stream.Header()
 			e.where("")
+			e.nlock()
 			rr.HeaderRes = append(rr.HeaderRes, es(err))
 			rr.HeaderMD = append(rr.HeaderMD, mdStr(md))
+			e.nunlock()
 			e.rec.ev(tn, op, mdStr(md)+" "+es(err))
 		case op == "T":
 			e.where("client:Trailer")
 			md := c.stream.Trailer()
 			e.where("")
+			e.nlock()
 			rr.TrailerMD = append(rr.TrailerMD, mdStr(md))
+			e.nunlock()
 			e.rec.ev(tn, op, mdStr(md))
 		case op == "X":
 			e.cancel()
@@ -407,15 +442,21 @@ func (e *Env) clientOps(i int, tn string, c *cli, ops []string) {
 				var m Msg
 				m.Payload = []byte("stale") // a destination is overwritten, never merged
 				m.Code = 77
+				e.nlock()
 				rr.CliRecvStarted++
+				e.nunlock()
 				e.where("client:RecvMsg")
 				err := c.stream.RecvMsg(&m)
 				e.where("")
+				e.nlock()
 				rr.RecvRes = append(rr.RecvRes, es(err))
+				e.nunlock()
 				e.rec.ev(tn, "RecvMsg", es(err))
+				e.nlock()
+				stop := false
 				if err == nil {
 					rr.CliRecv = append(rr.CliRecv, string(m.Payload))
-					if rr.HdrAtFirstRecv == "" && len(rpc.Client2) == 0 {
+					if rr.HdrAtFirstRecv == "" && len(rpc.Client2) == 0 && !(raceBuild && e.native) {
 						rr.HdrAtFirstRecv = mdStr(c.hdr)
 					}
 					if m.Code == 77 {
@@ -424,18 +465,19 @@ func (e *Env) clientOps(i int, tn string, c *cli, ops []string) {
 					e.monitorPrefix(i, "cli")
 					if !rpc.serverStreams() && op == "R*" {
 						// single-response method: one receive completes the call
-						break
+						stop = true
 					}
 				} else {
 					rr.Finals = append(rr.Finals, es(err))
 					if rr.FinalErr == "" {
 						rr.FinalErr = es(err)
-						if len(rpc.Client2) == 0 {
+						if len(rpc.Client2) == 0 && !(raceBuild && e.native) {
 							rr.TrlAtFinal = mdStr(c.trl)
 						}
 					}
 				}
-				if op == "R" || err != nil {
+				e.nunlock()
+				if stop || op == "R" || err != nil {
 					break
 				}
 			}
